@@ -46,6 +46,11 @@ type UserSpec struct {
 	// BackRef: as a team member this record's Manager, as a friend its Friends,
 	// point back at the parent record (a cycle through the parent)
 	BackRef bool `json:"back_ref,omitempty"`
+	// ShareCo: as a team member or friend, this record's Company is the parent's
+	// Company - the same in-memory record (`c := &Company{…}; u := User{Company: c,
+	// Friends: []*User{{Company: c}}}`).  At most one child per parent: the parent's own
+	// association pipeline saves the record and marks it visited for the child's.
+	ShareCo bool `json:"share_company,omitempty"`
 }
 
 func (s *CompanySpec) Build() *Company {
@@ -128,6 +133,9 @@ func (s *UserSpec) BuildShared(sh *Shared) *User {
 		if s.Team[i].BackRef {
 			u.Team[i].Manager = u
 		}
+		if s.Team[i].ShareCo && u.Company != nil && onlyCompany(s.Team, i) {
+			u.Team[i].Company = u.Company
+		}
 	}
 	for _, l := range s.Languages {
 		u.Languages = append(u.Languages, l.Build())
@@ -150,9 +158,24 @@ func (s *UserSpec) BuildShared(sh *Shared) *User {
 		if s.Friends[i].BackRef {
 			f.Friends = append(f.Friends, u)
 		}
+		if s.Friends[i].ShareCo && u.Company != nil && f.ID == 0 && !strings.HasPrefix(f.Name, SharedNewPrefix) && onlyCompany(s.Friends, i) {
+			f.Company = u.Company
+		}
 		u.Friends = append(u.Friends, f)
 	}
 	return u
+}
+
+// onlyCompany: no sibling of siblings[i] has a company.  (gorm skips an association
+// batch only when every record of it was visited before: a shared record saved
+// next to an unvisited sibling's is saved again with it.)
+func onlyCompany(siblings []UserSpec, i int) bool {
+	for j := range siblings {
+		if j != i && (siblings[j].Company != nil || siblings[j].ShareCo) {
+			return false
+		}
+	}
+	return true
 }
 
 // Size counts the records in a spec graph.
@@ -257,16 +280,23 @@ func (g *Gen) User(depth int) UserSpec {
 			m := g.User(depth - 1)
 			u.Manager = &m
 		}
+		sharedDown := false
 		for i, n := 0, g.small(); i < n; i++ {
 			t := g.User(depth - 1)
 			if t.Manager == nil && g.R.Chance(20) {
 				t.BackRef = true
+			}
+			if u.Company != nil && !sharedDown && g.R.Chance(20) {
+				t.ShareCo, t.Company, sharedDown = true, nil, true
 			}
 			u.Team = append(u.Team, t)
 		}
 		for i, n := 0, g.small(); i < n; i++ {
 			f := g.User(depth - 1)
 			f.BackRef = g.R.Chance(20)
+			if u.Company != nil && !sharedDown && f.ID == 0 && g.R.Chance(20) {
+				f.ShareCo, f.Company, sharedDown = true, nil, true
+			}
 			u.Friends = append(u.Friends, f)
 		}
 	}
